@@ -85,6 +85,23 @@ def establishLoop (next : Int → Int) : Int → Nat → List Ev
     let (slept, nb) := sleepAndIncrease next b
     (match slept with | some d => [.sleep d] | none => []) ++ .attempt .retryable :: establishLoop next nb n
 
+/-! ## The monitor for observed gaps between attempts (used by `Drive/C17.lean`)
+
+`p i g` = "gap `g` is long enough for the `i`-th wait of the schedule". -/
+
+/-- every gap, in order, is long enough for its slot, slots counted from `i` -/
+def gapsOk (p : Nat → Nat → Bool) : List Nat → Nat → Bool
+  | [], _ => true
+  | g :: gs, i => p i g && gapsOk p gs (i + 1)
+
+/-- Greedy judgement: a gap is left out (an immediate retry) only when it is too short for its
+slot; at most `k` gaps may be left out, `d` have been so far. -/
+def greedyFollows (p : Nat → Nat → Bool) (k : Nat) : List Nat → Nat → Nat → Bool
+  | [], _, _ => true
+  | g :: gs, i, d =>
+    if p i g then greedyFollows p k gs (i + 1) d
+    else if d < k then greedyFollows p k gs i (d + 1) else false
+
 /-- What the master answers to one procedure-state poll. -/
 inductive ProcAns where
   | running | finished | exception | notFound
